@@ -20,7 +20,13 @@ func verifWildParamSchema(p string) *openapi3.SchemaRef {
 	prim := func(t string) *openapi3.SchemaRef {
 		return &openapi3.SchemaRef{Value: &openapi3.Schema{Type: &openapi3.Types{t}}}
 	}
-	switch verifChoose(p+"schema", 13) {
+	switch verifChoose(p+"schema", 16) {
+	case 13: // a type list that is empty, or has two members (both pass Validate)
+		return &openapi3.SchemaRef{Value: &openapi3.Schema{Type: &openapi3.Types{}}}
+	case 14:
+		return &openapi3.SchemaRef{Value: &openapi3.Schema{Type: &openapi3.Types{"integer", "boolean"}}}
+	case 15:
+		return &openapi3.SchemaRef{Value: &openapi3.Schema{Type: &openapi3.Types{"array"}, Items: &openapi3.SchemaRef{Value: &openapi3.Schema{Type: &openapi3.Types{}}}}}
 	case 10: // objects composed with allOf / anyOf / oneOf (each branch declares its own members)
 		return &openapi3.SchemaRef{Value: &openapi3.Schema{AllOf: openapi3.SchemaRefs{
 			{Value: &openapi3.Schema{Type: &openapi3.Types{"object"}, Properties: openapi3.Schemas{"a": prim("integer")}}},
@@ -79,7 +85,7 @@ func verifAnyText(name string, max int) string {
 	return s
 }
 
-//verif:harness id=C10 tier=quick,thorough witness=end bounds="parameters in path/query/header with every legal style/explode cell and 13 schema shapes (primitives, array, object, objects composed with allOf / anyOf / oneOf, array via allOf, anyOf, oneOf, untyped+pattern, object with additionalProperties) that pass the real Parameter.Validate x raw text = any ASCII string of 0-3 bytes (delimiters, prefixes and empty pieces included); ValidateParameter with MultiError symbolic; assertion = no panic"
+//verif:harness id=C10 tier=quick,thorough witness=end bounds="parameters in path/query/header with every legal style/explode cell and 16 schema shapes (primitives, an empty type list, a list of two types, array, array of items with an empty type list, object, objects composed with allOf / anyOf / oneOf, array via allOf, anyOf, oneOf, untyped+pattern, object with additionalProperties) that pass the real Parameter.Validate x raw text = any ASCII string of 0-3 bytes (delimiters, prefixes and empty pieces included); ValidateParameter with MultiError symbolic; assertion = no panic"
 func verifH_C10_params() {
 	in := []string{"path", "query", "header"}[verifChoose("in", 3)]
 	var style string
@@ -360,7 +366,7 @@ func verifH_C10_response_optional_parts() {
 //verif:harness id=C10 tier=quick,thorough witness=end bounds="turning validation errors into responses: ConvertErrors / ValidationErrorEncoder on every RequestError shape of the C14 convert_errors harness (parameter absent or in path/query/header, body absent or present, eight error shapes incl. parse errors nested in parse errors, three route answers); assertion = no panic"
 func verifH_C10_convert_errors() { verifH_C14_convert_errors() }
 
-//verif:harness id=C10 tier=quick,thorough witness=end bounds="media types declared without a schema (legal) or with one: application/json, application/x-www-form-urlencoded, multipart/form-data, text/plain, application/octet-stream x schema in {absent, object with a string property, string} x a non-empty body of that type (well-formed or garbage), as a request body (required or not) and as a response body; MultiError symbolic; assertion = no panic"
+//verif:harness id=C10 tier=quick,thorough witness=end bounds="media types declared without a schema (legal) or with one: application/json, application/x-www-form-urlencoded, multipart/form-data, text/plain, application/octet-stream x schema in {absent, object with a string property, string, an empty type list, object with a property whose type list is empty / has two members} x a non-empty body of that type (well-formed or garbage), as a request body (required or not) and as a response body; MultiError symbolic; assertion = no panic"
 func verifH_C10_schemaless_media_types() {
 	k := verifChoose("mediaType", 5)
 	declared := []string{"application/json", "application/x-www-form-urlencoded", "multipart/form-data", "text/plain", "application/octet-stream"}[k]
@@ -374,11 +380,17 @@ func verifH_C10_schemaless_media_types() {
 		body = "%zz{="
 	}
 	mt := &openapi3.MediaType{}
-	switch verifChoose("schema", 3) {
+	switch verifChoose("schema", 6) {
 	case 1:
 		mt.Schema = &openapi3.SchemaRef{Value: &openapi3.Schema{Type: &openapi3.Types{"object"}, Properties: openapi3.Schemas{"s": {Value: &openapi3.Schema{Type: &openapi3.Types{"string"}}}}}}
 	case 2:
 		mt.Schema = &openapi3.SchemaRef{Value: &openapi3.Schema{Type: &openapi3.Types{"string"}}}
+	case 3: // a type list that is empty (it passes Validate), at the top or on a property; a list of two types
+		mt.Schema = &openapi3.SchemaRef{Value: &openapi3.Schema{Type: &openapi3.Types{}}}
+	case 4:
+		mt.Schema = &openapi3.SchemaRef{Value: &openapi3.Schema{Type: &openapi3.Types{"object"}, Properties: openapi3.Schemas{"s": {Value: &openapi3.Schema{Type: &openapi3.Types{}}}}}}
+	case 5:
+		mt.Schema = &openapi3.SchemaRef{Value: &openapi3.Schema{Type: &openapi3.Types{"object"}, Properties: openapi3.Schemas{"s": {Value: &openapi3.Schema{Type: &openapi3.Types{"integer", "boolean"}}}}}}
 	}
 	if mt.Validate(context.Background()) != nil {
 		return
